@@ -148,7 +148,7 @@ int main(int argc, char** argv) {
 			pre.push_back(&t); long long k = caseNo++;
 			bool deadHere = dead || SKIP_SITES.count(site_of(t)) > 0;
 			int reached = t.toId; bool good = true;
-			if (!deadHere && Proto::begin_case_fast(k)) { if ((k & 1023) == 0) alarm((unsigned)Proto::g_watchdog_s);
+			if (!deadHere && Proto::begin_case_fast(k)) { if ((k & 1023) == 0) Proto::watchdog((unsigned)Proto::g_watchdog_s);
 				CURLEN = (int)pre.size(); for (int i = 0; i < CURLEN; ++i) CUR[i] = pre[i];
 				auto L = fresh(); int sid = initId; for (int i = 0; i < CURLEN && good; ++i) good = apply(L, *pre[i], i, sid); reached = sid; ++walks; }
 			// Below a walk that disagreed with the specification nothing more is executed, but numbering continues.
@@ -162,7 +162,7 @@ int main(int argc, char** argv) {
 	std::mt19937_64 rng(Proto::g_seed * 7919 + 17);
 	for (long w = 0; w < randomWalks; ++w) { long long k = caseNo++; std::vector<const Tr*> path; int st = initId;   // choose the walk first (cheap), then maybe execute
 		std::mt19937_64 wr(rng()); for (int i = 0; i < randomLen; ++i) { auto& out = REL[st]; if (out.empty()) break; const Tr* t = &out[wr() % out.size()]; if (skipped(*t) || t->free || SKIP_SITES.count(site_of(*t))) { continue; } path.push_back(t); st = t->toId; }
-		if (!Proto::begin_case_fast(k)) continue; alarm((unsigned)Proto::g_watchdog_s);
+		if (!Proto::begin_case_fast(k)) continue; Proto::watchdog((unsigned)Proto::g_watchdog_s);
 		CURLEN = (int)std::min<std::size_t>(path.size(), 64); for (int i = 0; i < CURLEN; ++i) CUR[i] = path[i];
 		auto L = fresh(); int sid = initId; bool good = true; for (int i = 0; i < CURLEN && good; ++i) good = apply(L, *path[i], i, sid); ++walks; }
 	std::size_t ntr = 0; for (auto& v : REL) ntr += v.size();
